@@ -17,7 +17,7 @@ import (
 // Family "tar" (C03): tar a generated tree, extract it into an empty directory, compare
 // independent scans of source and destination.
 
-var rtSizes = []int{0, 1, 511, 512, 513, 32767, 32768, 32769, 65537}
+var rtSizes = []int{0, 1, 511, 512, 513, 32767, 32768, 32769, 65536, 65537, 98304}
 var rtPathLens = []int{99, 100, 101, 155, 255, 256, 300}
 var rtShortNames = []string{"a", "b", "c", "d", "e", "f", "x", "y", "dir", "file.txt", "lib", ".cfg", "w", "h", ".w", "wh.x", "-n", "a b", "é", "日本語", "😀x", "ñandú", "Ω.tar", "ü"}
 var rtRunes = []string{"é", "日", "😀", "ß", "語"}
@@ -381,7 +381,9 @@ func rtGenTarTree(r *Rng) ([]rtNode, map[string]int) {
 			}
 			big++
 		}
-		n.Data = rtBytes(r, sz)
+		var shape string
+		n.Data, shape = rtShapedBytes(r, sz)
+		g.feat["content="+shape]++
 		if r.chance(1, 8) {
 			n.Cap = rtCapRev2
 			if r.chance(1, 3) {
